@@ -874,7 +874,9 @@ pub fn shard_main(cases: &[(&str, fn(&mut GridCtx))]) {
                     let _ = arena::end();
                 }
                 let msg = mccore::util::take_last_panic();
-                ctx.found.push(("C03".into(), "query-panicked".into(), format!("[{}] {}", name, msg), format!("{{\"engine\":\"grid\",\"case\":{},\"world_index\":0,\"world_history\":[]}}", mccore::util::json_str(name))));
+                // cases named "par:..." are parallel queries (C09); "res:..." resource accesses (C15); the rest C03
+                let owner = if name.starts_with("par:") { "C09" } else if name.starts_with("res:") { "C15" } else { "C03" };
+                ctx.found.push((owner.into(), "query-panicked".into(), format!("[{}] {}", name, msg), format!("{{\"engine\":\"grid\",\"case\":{},\"world_index\":0,\"world_history\":[]}}", mccore::util::json_str(name))));
             }
         }
         for (prop, key, detail, replay) in &ctx.found {
